@@ -131,7 +131,7 @@ impl Scn {
     if self.fixed_cost {
       return self.cost_of_key(key);
     }
-    if self.zero_cost && rng.chance(1, 10) {
+    if self.zero_cost && rng.chance(1, 5) {
       return 0;
     }
     if self.oversize && rng.chance(1, 12) {
@@ -303,6 +303,8 @@ pub fn gen_scn(rng: &mut Rng, exec: u64, prop: Prop, o: &GenOpts) -> Scn {
         s.clock_thread = true;
       }
       let tt = if ttl_on { 1 } else { 0 };
+      // zero is a legal cost: entries that weigh nothing are evicted, expired and notified like any other
+      s.zero_cost = rng.chance(1, 2);
       if keepup {
         s.mode = Mode::KeepUp;
         s.threads = rng.range(2, 4) as usize;
